@@ -1,5 +1,5 @@
 (* C03 — dgrep selects exactly the lines grep semantics prescribe.  Statements only. *)
-From DT Require Import Lib.Bytes Model.C03_Grep Proofs.C03_Grep Proofs.C03_Full.
+From DT Require Import Lib.Bytes Model.C03_Grep Proofs.C03_Grep Proofs.C03_Full Model.C01_Eof Proofs.C01_Eof.
 
 (* Full statement: for every file (as selection bits), before, after and max, the state machine
    of filterWithLContext emits exactly the indices the declarative grep semantics [emitted]
@@ -49,3 +49,9 @@ Example C03_example :
   grep_run 1 1 2 [false; false; true; false; false; false; true; false; true; false] = [1; 2; 3; 5; 6; 7]
   /\ grep_spec 1 1 2 [false; false; true; false; false; false; true; false; true; false] = [1; 2; 3; 5; 6; 7].
 Proof. vm_compute. split; reflexivity. Qed.
+
+(* End of file (a slow consumer makes a read last longer than 3 s): the last, unterminated line of a file still reaches the
+   filter - see Props/C01.v; the operator of the truncation test comes from the Go source on every run. *)
+Theorem C03_eof_delivers_rest : forall (tick pick pending : bool) (offset size : Z), (offset <= size)%Z ->
+  at_eof false tick false pick pending (Some offset) (Some size) = EofStop pending.
+Proof. exact eof_delivers_rest. Qed.
